@@ -100,6 +100,8 @@ invariant
     0 <= vx_it1.pos@ <= vx_it1.v@.len(), vx_it1.v@ == env.cfg_paths@,
     forall|j: int| 0 <= j < to_watch@.len() ==> vx_it1.v@.contains(#[trigger] to_watch@[j]), // OBL:C13+C01.fs_worker.diff_names_exactly_the_stale_and_the_missing_paths
     forall|i: int| 0 <= i < vx_it1.pos@ && !pathset.v@.contains(#[trigger] vx_it1.v@[i]) ==> to_watch@.contains(vx_it1.v@[i]), // OBL:C13+C01.fs_worker.diff_names_exactly_the_stale_and_the_missing_paths
+    // ... and ONLY the missing ones: a path already on record is never registered again (with the poll watcher a second watch() resets the snapshot and loses changes)
+    forall|j: int| 0 <= j < to_watch@.len() ==> !pathset.v@.contains(#[trigger] to_watch@[j]), // OBL:C13+C01.fs_worker.a_path_on_record_is_not_registered_again
 ensures
     vx_it1.pos@ == vx_it1.v@.len(),
 body_start:
@@ -126,6 +128,7 @@ proof {
         if p0 =~= Set::<WatchedPath>::empty() { assert(cfg[j] == to_watch@[j]); }
     }
     assert(forall|x: WatchedPath| #[trigger] cfg.contains(x) && !p0.contains(x) ==> to_watch@.contains(x)); // OBL:C13+C01.fs_worker.diff_names_exactly_the_stale_and_the_missing_paths
+    assert(forall|j: int| 0 <= j < to_watch@.len() ==> !p0.contains(#[trigger] to_watch@[j])); // OBL:C13+C01.fs_worker.a_path_on_record_is_not_registered_again
     assert(forall|j: int| 0 <= j < td.len() ==> p0.contains(#[trigger] td[j]) && !cfg.contains(td[j])); // OBL:C13+C01.fs_worker.diff_names_exactly_the_stale_and_the_missing_paths
     assert(forall|x: WatchedPath| #[trigger] p0.contains(x) && !cfg.contains(x) ==> td.contains(x)); // OBL:C13+C01.fs_worker.diff_names_exactly_the_stale_and_the_missing_paths
 }
